@@ -269,6 +269,22 @@ def related_regexps(rng, syms):
             Ca(St(r), r2), Ca(r2, St(r)), St(Ca(r, r2)), Su(Ca(r, r2), Ca(r2, r)), Su(Su(r, r2), r)]
 
 
+def related_regexps_described(rng, syms, describe):
+    """as related_regexps, but every tree comes with the description of what was ASKED of the constructors
+    (describe = abstraction of the two base trees, taken before anything is built from them): the trees share
+    their operand OBJECTS, so a constructor that hands back another node for the same operands shows"""
+    from gambatools import regexp as R
+    base = related_regexps(rng, syms)          # only for its random choices: rebuilt below with descriptions
+    r, r2 = base[3].left, base[3].right
+    a, a2 = describe(r), describe(r2)
+    St = lambda x: (R.Iteration(x[0]), ["star", x[1]])                      # noqa
+    Su = lambda x, y: (R.Sum(x[0], y[0]), ["sum", x[1], y[1]])             # noqa
+    Ca = lambda x, y: (R.Concat(x[0], y[0]), ["cat", x[1], y[1]])          # noqa
+    x, y = (r, a), (r2, a2)
+    return [Su(St(x), y), Su(y, St(x)), Ca(St(x), St(y)), Su(x, y), Ca(x, y), St(Su(x, y)), Su(St(x), St(y)),
+            Ca(St(x), y), Ca(y, St(x)), St(Ca(x, y)), Su(Ca(x, y), Ca(y, x)), Su(Su(x, y), x), Ca(Su(x, y), x), Su(Ca(x, y), y)]
+
+
 # ------------------------------------------------------------------ CFG
 # multi-character variable names (legal: a Variable is any string): prefixes of each other, concatenations of
 # each other, digits / underscores / primes as the library's own fresh names have them
